@@ -523,6 +523,10 @@ pub struct ChangeCase {
     /// fails and must leave the remembered baseline as it was
     #[serde(default)]
     pub missing: Vec<u8>,
+    /// evaluations (indices modulo the length) made from inside a nested scope that was opened without re-initialising
+    /// the condition: the condition has ONE memory, wherever it is evaluated from
+    #[serde(default)]
+    pub scoped: Vec<u8>,
 }
 
 pub struct ChangeCheck;
@@ -533,7 +537,7 @@ impl Check for ChangeCheck {
         "C10/change-of".into()
     }
     fn classes(&self) -> &'static [&'static str] {
-        &["value returns to an earlier value", "repeat of the same value", "delta checker", "sub-threshold drift accumulates", "objective-valued", "an evaluation with the source state missing"]
+        &["value returns to an earlier value", "repeat of the same value", "delta checker", "sub-threshold drift accumulates", "objective-valued", "an evaluation with the source state missing", "an evaluation from inside a nested scope"]
     }
     fn oracle(&self, c: &ChangeCase) -> Outcome {
         let mut cl = 0;
@@ -585,7 +589,26 @@ fn change_oracle(c: &ChangeCase, cl: &mut u64) -> Result<(), Failure> {
         } else {
             st.insert(T0(*v));
         }
-        let got = eval_cond(cond.as_ref(), &p, &mut st);
+        let in_scope = c.scoped.iter().any(|m| *m as usize % c.values.len() == k);
+        let got = if in_scope {
+            *cl |= 64;
+            let mut inner_result = Err("scope not entered".to_string());
+            let depth = 1 + k % 2;
+            let r = st.with_inner_state(|s1| {
+                if depth == 2 {
+                    s1.with_inner_state(|s2| {
+                        inner_result = eval_cond(cond.as_ref(), &p, s2);
+                        Ok(())
+                    })?;
+                } else {
+                    inner_result = eval_cond(cond.as_ref(), &p, s1);
+                }
+                Ok(())
+            });
+            if r.is_err() { Err("with_inner_state failed".to_string()) } else { inner_result }
+        } else {
+            eval_cond(cond.as_ref(), &p, &mut st)
+        };
         let want = match prev {
             None => true,
             Some(pv) => match c.threshold {
@@ -943,18 +966,24 @@ pub fn run_all(ctx: &mut Ctx, replay: Option<&Path>) {
                 c /= 3;
             }
             for th in [None, Some(2), Some(3)] {
-                hs.push(ChangeCase { threshold: th, values: v.clone(), objective: code % 2 == 1, missing: Vec::new() });
+                hs.push(ChangeCase { threshold: th, values: v.clone(), objective: code % 2 == 1, missing: Vec::new(), scoped: Vec::new() });
+                if len >= 3 && len <= 5 {
+                    // the same history with one evaluation (not the first) made from inside a nested scope
+                    for m in 1..len - 1 {
+                        hs.push(ChangeCase { threshold: th, values: v.clone(), objective: code % 2 == 1, missing: Vec::new(), scoped: vec![m as u8] });
+                    }
+                }
                 if len >= 2 && len <= 5 {
                     // the same history with one evaluation (every position but the first) failing for lack of the source
                     for m in 1..len {
-                        hs.push(ChangeCase { threshold: th, values: v.clone(), objective: code % 2 == 1, missing: vec![m as u8] });
+                        hs.push(ChangeCase { threshold: th, values: v.clone(), objective: code % 2 == 1, missing: vec![m as u8], scoped: Vec::new() });
                     }
                 }
             }
         }
     }
     ctx.exhaustive(&ch, "all value histories up to the length bound over {1,2,4} x {PartialEq, Delta(2), Delta(3)}, alternating i64 / SingleObjective; histories of length 2-5 also with one evaluation failing because the source state is missing", hs.into_iter());
-    ctx.random(&ch, (proptest::option::of(0i64..6), proptest::collection::vec(-4i64..8, 0..13), any::<bool>(), prop_oneof![2 => Just(Vec::new()), 1 => proptest::collection::vec(any::<u8>(), 1..3)]).prop_map(|(threshold, values, objective, missing)| ChangeCase { missing, threshold, values, objective }), ctx.tier.pick(40_000, 400_000));
+    ctx.random(&ch, (proptest::option::of(0i64..6), proptest::collection::vec(-4i64..8, 0..13), any::<bool>(), prop_oneof![2 => Just(Vec::new()), 1 => proptest::collection::vec(any::<u8>(), 1..3)], prop_oneof![2 => Just(Vec::new()), 1 => proptest::collection::vec(any::<u8>(), 1..4)]).prop_map(|(threshold, values, objective, missing, scoped)| ChangeCase { missing, threshold, values, objective, scoped }), ctx.tier.pick(40_000, 400_000));
     let n = ctx.tier.pick(4000, 20_000);
     let seeds = ctx.tier.pick(20, 100);
     let base = ctx.derive_seed("chance");
